@@ -30,13 +30,27 @@ def load(path=PATH):
     return out
 
 
-def match(known, prop, klass, detail):
+def plan_signature(plan):
+    """What identifies the input of a run: damaged/overridden files and the
+    program texts, in one line (the `detail=` regex of a known finding is
+    matched against the violation detail followed by this)."""
+    if not plan:
+        return ""
+    files = ";".join("%s<-%s errno=%s patches=%s" % (f.get("vpath"), os.path.basename(f.get("backing", "") or ""),
+                                                     f.get("errno", 0), f.get("patches") or [])
+                     for f in plan.get("files", []))
+    progs = " | ".join(sorted(set(p.get("text", "") for p in plan.get("progs", []) if p.get("text", "").strip())))
+    return "\nPLAN files{%s} progs{%s}" % (files, progs)
+
+
+def match(known, prop, klass, detail, plan=None):
+    text = (detail or "") + plan_signature(plan)
     for k in known:
         if k["property"] != prop:
             continue
         if not re.fullmatch(k["key"], klass):
             continue
-        if k["detail"] and not re.search(k["detail"], detail or "", re.S):
+        if k["detail"] and not re.search(k["detail"], text, re.S):
             continue
         return k
     return None
